@@ -184,8 +184,24 @@ func buildCollection(impl string, ts *gen.TypeSpec, items []rangeItem) jsonapi.C
 		col := &jsonapi.SoftCollection{}
 		col.SetType(&typ)
 
-		for _, it := range items {
+		// Every other collection has a past: members that were added in
+		// between the others and removed again before anybody looks.
+		past := len(items)%2 == 1
+
+		for i, it := range items {
+			if past && i%2 == 1 {
+				col.Add(mk(&soft, rangeItem{id: fmt.Sprintf("zz-gone-%d", i), vals: it.vals}))
+			}
+
 			col.Add(mk(&soft, it))
+		}
+
+		if past {
+			for i := range items {
+				if i%2 == 1 {
+					col.Remove(fmt.Sprintf("zz-gone-%d", i))
+				}
+			}
 		}
 
 		return col
